@@ -154,6 +154,56 @@ theorem real_mirror_disjoint (D start len : Nat)
     D - (start + i) ≠ start + j := by
   omega
 
+/-- the response rebuilt by the documented (complex, wrapping) recipe: bin `b` holds tap `j` when
+`(start + j) mod D = b`, zero otherwise -/
+def rebuilt {T : Type} [Zero T] (D start len : Nat) (tap : Nat → T) (b : Nat) : T :=
+  match (List.range len).find? (fun j => (start + j) % D = b) with
+  | some j => tap j
+  | none => 0
+
+/-- **full_spectrum_sum.** With at most `D` taps the sum over all `D` bins of the full spectrum of
+any summand `φ b (H b)` that vanishes where the rebuilt response `H` is zero equals the sum over the
+taps, each at its own bin `(start + j) mod D` — which is what the walk accumulates (`walk_covers`). -/
+theorem full_spectrum_sum {T M : Type} [Zero T] [AddCommMonoid M] (D start len : Nat) (hD : 0 < D)
+    (hlen : len ≤ D) (tap : Nat → T) (φ : Nat → T → M) (h0 : ∀ b, φ b 0 = 0) :
+    ∑ b ∈ Finset.range D, φ b (rebuilt D start len tap b)
+      = ∑ j ∈ Finset.range len, φ ((start + j) % D) (tap j) := by
+  -- rewrite each bin's term as a sum over taps with an indicator
+  have hbin : ∀ b, φ b (rebuilt D start len tap b)
+      = ∑ j ∈ Finset.range len, if (start + j) % D = b then φ b (tap j) else 0 := by
+    intro b
+    unfold rebuilt
+    cases hf : (List.range len).find? (fun j => (start + j) % D = b) with
+    | none =>
+      simp only [h0]
+      symm
+      apply Finset.sum_eq_zero
+      intro j hj
+      have := List.find?_eq_none.mp hf j (List.mem_range.mpr (Finset.mem_range.mp hj))
+      simp at this
+      simp [this]
+    | some j0 =>
+      have hj0 := List.find?_some hf
+      have hm := List.mem_of_find?_eq_some hf
+      simp only [decide_eq_true_eq] at hj0
+      have hj0l : j0 < len := List.mem_range.mp hm
+      rw [Finset.sum_eq_single j0]
+      · simp [hj0]
+      · intro j hj hne
+        have hjl := Finset.mem_range.mp hj
+        have : (start + j) % D ≠ b := by
+          intro hjb
+          exact hne (walk_bins_distinct D start len hlen j j0 hjl hj0l (hjb.trans hj0.symm))
+        simp [this]
+      · intro h; exact absurd (Finset.mem_range.mpr hj0l) h
+  simp only [hbin]
+  rw [Finset.sum_comm]
+  apply Finset.sum_congr rfl
+  intro j _
+  have hb : (start + j) % D ∈ Finset.range D := Finset.mem_range.mpr (Nat.mod_lt _ hD)
+  rw [Finset.sum_ite_eq]
+  simp [hb]
+
 /-! ## default frame length -/
 
 /-- With `frame_length = max(support, ⌈2·rate / bw_min⌉) ≤ D` the DFT bin spacing `rate / D` is at
